@@ -91,11 +91,22 @@ def load_unclaimed():
     return d
 
 
-def group_of(k, f):
+def group_of(k, f, file=None):
     _, kind, op, _ = k.rsplit("|", 3)
     if kind == "rem_zero":   # `a % d` and `a / d` need the same fact about d: one group
         kind = op = "div_zero"
-    return "%s|%s|%s" % (file_of(f), kind, op)
+    return "%s|%s|%s" % (file or file_of(f), kind, op)
+
+
+def groups_of(prog, k, f):
+    """the group(s) an unproved assert counts for: the file of its function — or, for a function that does not exist in the
+    reference tree (code moved into a shared helper), the files of the reference functions it works for"""
+    r = f.root_fn()
+    if prog.is_new(r):
+        files = sorted({file_of(prog.fns[o]) for o in prog.owners(r) if o in prog.fns})
+        if files:
+            return [group_of(k, f, fl) for fl in files]
+    return [group_of(k, f)]
 
 
 def run(ctx, rep):
@@ -111,7 +122,8 @@ def run(ctx, rep):
         if (rep.pid, full) in rep.known:
             rep.fail("R08.4", k, "possible %s at display scale: %s" % (k.split("|")[1], det), at=sp, fn=f.path, detail=det)
             continue
-        groups.setdefault(group_of(k, f), []).append((k, f, det, sp))
+        for g_ in groups_of(prog, k, f):
+            groups.setdefault(g_, []).append((k, f, det, sp))
     for g, items in sorted(groups.items()):
         allowed = unclaimed.get(g, 0)
         if len(items) <= allowed:
@@ -149,7 +161,8 @@ if __name__ == "__main__":
     import sys
     sys.path.insert(0, os.path.join(os.path.dirname(HERE), "engine"))
     from mirq import Program
-    found, n, an = analyse(Program("default"))
+    prog = Program("default")
+    found, n, an = analyse(prog)
     if "--baseline" in sys.argv:
         known = set()
         for line in open(os.path.join(os.path.dirname(HERE), "KNOWN_FINDINGS.txt")):
@@ -161,7 +174,8 @@ if __name__ == "__main__":
         for k, (f, det, sp) in sorted(found.items()):
             if ("R08.4:" + k).replace(" ", "_") in known:
                 continue
-            groups.setdefault(group_of(k, f), []).append((f, det))
+            for g_ in groups_of(prog, k, f):
+                groups.setdefault(g_, []).append((f, det))
         head = [l for l in open(UNCLAIMED) if l.startswith("#")] if os.path.exists(UNCLAIMED) else []
         with open(UNCLAIMED, "w") as fh:
             fh.writelines(head)
